@@ -278,10 +278,37 @@ def run(report):
                            {"justfile": r["justfile"], "argv": r["argv"], "stderr": r["stderr"]}, no_input=True)
             break
 
+    # ---- 4. continued lines: the sigils are those of the FIRST physical line; a continuation that begins with `-` or `@`
+    # is text.  The echoed text is the command the shell receives, and a failing command stops the run
+    conts = []
+    for first in ("", "@", "-", "@-"):
+        for start in ("-b", "@b", "@-b", "-@b", "--flag", "b"):
+            for fail in (False, True):
+                conts.append((first, start, fail))
+
+    def cont_one(arg):
+        first, start, fail = arg
+        jf = 'set shell := ["%s", "-c"]\nr:\n  %s[T0.0] a \\\n  %s\n  [T0.1] after\n' % (C.VSH, first, start)
+        with C.scratch("c14c") as d:
+            r = R.run_impl(d, jf, ["r"], [("[T0.0]", {"code": {"n": 3}})] if fail else [], [], [])
+        return {"justfile": jf, "events": r["events"], "exit": r["exit"], "stderr": r["stderr"][-300:]}
+
+    for (first, start, fail), r in zip(conts, C.pmap(cont_one, conts)):
+        stats["continued_line_cases"] = stats.get("continued_line_cases", 0) + 1
+        cmd = "[T0.0] a " + start
+        stops = fail and "-" not in first
+        want = ([] if "@" in first else [["echo", cmd]]) + [["spawn", cmd]] + ([] if stops else [["echo", "[T0.1] after"], ["spawn", "[T0.1] after"]])
+        got = [list(e) for e in r["events"] if e[0] in ("echo", "spawn")]
+        if got != want or r["exit"] != (3 if stops else 0):
+            report.failure("c14-continued-line", "a continued line whose continuation begins with %r (first line prefix %r, command %s): events %s exit %s, documented %s exit %s"
+                           % (start, first, "fails" if fail else "succeeds", got, r["exit"], want, 3 if stops else 0),
+                           {"justfile": r["justfile"], "argv": ["r"], "plan": "[T0.0] exits 3" if fail else "", "observed": {"events": got, "exit": r["exit"]}, "expected": {"events": want, "exit": 3 if stops else 0}})
+            break
+
     report.coverage.update({
         "evaluations": stats["table_rows"] + 4 * stats["random_programs"] + stats.get("dry_backtick_positions", 0),
         "distinct_nontrivial": len(distinct),
-        "rule": "480-row echo truth table (exhaustive) + random recipe graphs run 4 ways (plain/--quiet with faults, real all-succeed, --dry-run) + a backtick at every child position of every expression constructor x {assignment, module assignment, interpolation, script interpolation, parameter default, dependency argument} under --dry-run (nothing may run); distinct = distinct observed event traces",
+        "rule": "480-row echo truth table (exhaustive) + random recipe graphs run 4 ways (plain/--quiet with faults, real all-succeed, --dry-run) + a backtick at every child position of every expression constructor x {assignment, module assignment, interpolation, script interpolation, parameter default, dependency argument} under --dry-run (nothing may run) + continued lines whose continuation begins with a sigil character (4 first-line prefixes x 6 continuations x command succeeds / fails); distinct = distinct observed event traces",
         "samples": samples,
         "exhaustive": True,
         "traces_validated_against_impl": stats["table_rows"] + 4 * stats["random_programs"],
